@@ -67,6 +67,7 @@ type tqAdapterCall struct {
 	Oid        string `json:"oid"`
 	Start, End int64  // ms since case start
 	Outcome    string `json:"outcome"`
+	NotBefore  int64  `json:"not_before,omitempty"` // the adapter deferred this object until then (Retry-After on the transfer)
 }
 type tqBatchReq struct {
 	At   int64    `json:"at"`
@@ -169,12 +170,13 @@ func (a *fakeAdapter) Add(ts ...*tq.Transfer) <-chan tq.TransferResult {
 			if overlap {
 				o += "+overlap"
 			}
+			var nb int64
 			if strings.HasPrefix(out, "later") && len(out) == 6 {
 				secs, _ := strconv.Atoi(out[5:])
-				w.obs.NotBefore[t.Oid] = w.ms() + int64(secs)*1000 - 60
+				nb = w.ms() + int64(secs)*1000 - 60
 				o = "later" // same outcome class as an undelayed deferral
 			}
-			w.obs.Calls = append(w.obs.Calls, tqAdapterCall{Oid: t.Oid, Start: st, End: w.ms(), Outcome: o})
+			w.obs.Calls = append(w.obs.Calls, tqAdapterCall{Oid: t.Oid, Start: st, End: w.ms(), Outcome: o, NotBefore: nb})
 			w.mu.Unlock()
 			ch <- tq.TransferResult{Transfer: t, Error: err}
 		}
